@@ -23,13 +23,13 @@ SINGLE, ITERATE = 0, 1
 
 
 def fam_queue(E, np_, nc, fault_kinds, close_modes=2, real=False, pmax=2, placements=True,
-              victims=None, nputs=2, burst=False):
+              victims=None, nputs=2, burst=False, ngets=2, single_only=False, late=False):
     # burst: only the date of the first put is symbolic, the others follow at once, so that a
     # backlog builds up in the buffer before the consumers arrive / the queue is closed
     gaps = [[E.num('g%d_%d' % (i, j), 0, 15, real=real) if not (burst and j) else E.const(0)
              for j in range(nputs)] for i in range(np_)]
     starts = [E.num('s%d' % i, 0, 15, real=real) for i in range(nc)]
-    ckind = [E.pick('ck%d' % i, 2) for i in range(nc)]
+    ckind = [SINGLE if single_only else E.pick('ck%d' % i, 2) for i in range(nc)]
     closing = E.pick('closing', close_modes) == 1
     z = E.num('z', 0, 40, real=real) if closing else None
     fault = Fault(E, 'f', fault_kinds, hi=40, pmax=pmax, real=real, placements=placements)
@@ -62,7 +62,7 @@ def fam_queue(E, np_, nc, fault_kinds, close_modes=2, real=False, pmax=2, placem
             name = 'c%d' % i
             await (time + starts[i])
             if ckind[i] == SINGLE:
-                for _ in range(2):
+                for _ in range(ngets):
                     log(name, 'get-call')
                     try:
                         item = await q
@@ -77,6 +77,34 @@ def fam_queue(E, np_, nc, fault_kinds, close_modes=2, real=False, pmax=2, placem
                     log(name, 'get-call')
                 log(name, 'closed')
         return run
+
+    # late phase: long after the first one (and its fault) two further receivers, each a new
+    # activity asking once, and two further items; what the first phase left behind in the
+    # queue (its read mutex, its notification) must not matter
+    def late_consumer(name, at):
+        async def run():
+            await (time + at)
+            log(name, 'get-call')
+            try:
+                item = await q
+            except StreamClosed:
+                log(name, 'closed')
+                return
+            log(name, 'got', item)
+        return run
+
+    async def late_producer():
+        await (time + 105)
+        for j in range(2):
+            item = (9, j)
+            log('p9', 'put-call', item)
+            try:
+                await q.put(item)
+            except StreamClosed:
+                log('p9', 'put-refused', item)
+                return
+            log('p9', 'put-done', item)
+            await (time + 10)
 
     async def closer():
         await (time + z)
@@ -109,6 +137,10 @@ def fam_queue(E, np_, nc, fault_kinds, close_modes=2, real=False, pmax=2, placem
                     top.do(fn())
             if closing:
                 top.do(closer())
+            if late:
+                top.do(late_consumer('c8', 100)())
+                top.do(late_consumer('c9', 110)())
+                top.do(late_producer())
             top.do(drainer())
 
     out = simulate(root(), log=log)
@@ -211,6 +243,14 @@ FAMILIES = [
                       victims=['c1']),
            reach=['cancel', 'close', 'fault-hits-waiting-receiver'],
            bounds='1 producer x 2 puts, 2 consumers, the second consumer cancelled / closed at (c,p)'),
+    Family('late_phase', fam_queue,
+           quick=dict(np_=1, nc=2, nputs=1, ngets=1, single_only=True, late=True, close_modes=1,
+                      fault_kinds=[Fault.CANCEL, Fault.CLOSE, Fault.INTERRUPT], pmax=2,
+                      victims=['c1', 'c0']),
+           reach=['cancel', 'close', 'interrupt', 'fault-hits-waiting-receiver'],
+           bounds='1 producer x 1 put, 2 receivers asking once (one of them faulted at (c,p), also '
+                  'as the designated next receiver with nobody queued behind it), then - long '
+                  'after - two further receivers (new activities) and two further items'),
     Family('backlog', fam_queue,
            quick=dict(np_=1, nc=2, fault_kinds=[Fault.NONE], nputs=3, burst=True),
            thorough=dict(np_=1, nc=2, fault_kinds=[Fault.NONE, Fault.CANCEL], nputs=4, burst=True,
